@@ -770,6 +770,12 @@ def run_c15(tier, seed, replay=None, theorems=None, module=None):
             rep.obligation("docs:error-code-enums", False, str(e)); codes = None
         if not model or not impl or not server or not cachegen or not codes:
             return rep.finish()
+        if replay and "#!refresh" in open(replay).read():
+            text = open(replay).read()
+            loader_corr.run_refresh_leg(rep, model, seed, tier, replay_text=text[text.index("#!refresh"):])
+            return rep.finish()
+        if not replay:
+            loader_corr.run_refresh_leg(rep, model, seed, tier)
         if replay and re.search(r"^update ", open(replay).read(), re.M):
             hs = []              # replay of an in-process refresh history (check/refresh_inproc.py)
         elif replay:
